@@ -34,9 +34,9 @@ def rng(seed, salt):
 
 def repo_fingerprint():
     """sha of the sources the encodings are generated from (reported in the evidence)"""
-    out = subprocess.run("cd /repo && (git rev-parse HEAD; git diff HEAD --stat | tail -1; cat src/*.rs src/chess/*.rs zobrist_bytes.bin | sha256sum)",
+    out = subprocess.run("cd /repo && (git rev-parse HEAD; git status --porcelain | wc -l; cat src/*.rs src/chess/*.rs zobrist_bytes.bin | sha256sum)",
                          shell=True, stdout=subprocess.PIPE, text=True).stdout.split("\n")
-    return {"head": out[0].strip(), "dirty": out[1].strip() if len(out) > 2 else "", "sources_sha256": out[-2].split()[0] if len(out) >= 2 else ""}
+    return {"head": out[0].strip(), "uncommitted_files": out[1].strip() if len(out) > 2 else "", "sources_sha256": out[-2].split()[0] if len(out) >= 2 else ""}
 
 
 def load_known():
